@@ -78,5 +78,5 @@ Definition same_but_resq (x y : wst) : Prop :=
    worker's lane that st has lost *)
 Definition differ_by_ack (st st' : pst) (w : nat) : Prop :=
   o st = o st' /\ pc st = pc st' /\ sc st = sc st' /\ tasks st = tasks st' /\ flight st = flight st' /\ sent st = sent st' /\
-  replies st = replies st' /\ dropfail st = dropfail st' /\ (forall k, k <> w -> ws st k = ws st' k) /\
+  replies st = replies st' /\ dropfail st = dropfail st' /\ undelivered st = undelivered st' /\ (forall k, k <> w -> ws st k = ws st' k) /\
   same_but_resq (ws st w) (ws st' w) /\ requeued (ws st w) = requeued (ws st' w) /\ resq (ws st' w) = RDropComplete :: resq (ws st w).
